@@ -10,9 +10,29 @@
 
    ops:  ipclass x<hex>                         -> l=<b> u=<b> b=<b> t=<hex|n>   (IsLocal, IsUnspecified, IsLoopback, To4)
          strip <structure> <ignored>            -> unchanged | keep=<ids per media> rest=1
-         peer  <structure> <caps> <ignored>     -> nil | x<hex>                    (caps: comma list of n | x<hex>) *)
+         peer  <structure> <caps> <ignored>     -> nil | x<hex>                    (caps: comma list of n | x<hex>)
+
+   whole description at line level (Model/SdpStripLines.v); ids stand for exact line texts of pion's
+   re-marshalling of the input:
+     lstruct = U | <e>;<session>;<media>;<media>…
+        e        1 when Marshal(Unmarshal(text)) is byte-identical to text, else 0
+        session  "-" or comma list of line ids
+        media    comma list: h<id> for the m=/i=/c=/b=/k= lines, then attribute tokens as above
+         lines <lstruct> <ignored>                                  -> unchanged | lines=<ids>
+         psend <keep> <lstruct> <ignored>                           -> same | lines=<ids>     (proxy sendAnswer)
+         csend <keep> x<broker> x<cache> x<front> <lstruct> <ign.>  -> same | lines=<ids>     (client Negotiate)
+         csendc: as csend, the channel taken from NewSnowflakeClient(config)
+      "same" = the text that went out is byte-identical to the text that came in
+
+   remoteIPFromSDP with its partial operations (Model/SessDescPeer.v):
+     pstruct = U | none | <media>;…   media = N (nil pointer) | "-" | comma list of
+        o              not a candidate attribute
+        k<e>.nil       ice.UnmarshalCandidate returned c == nil; e = 1 when err != nil
+        k<e>.<t>.<a>   c != nil, type t, a = hex of net.ParseIP(c.Address()) or n
+     pcaps   = comma list, one per pattern: n (nil submatch) | m<len>.<a> (len(m), a as above for m[1])
+         peerg <pstruct> <pcaps> <ignored>      -> nil | x<hex> | !panic <why> *)
 From Coq Require Import List NArith Bool Arith String.
-From Snow Require Import Lib.Wire Model.IpClass Model.SdpStrip.
+From Snow Require Import Lib.Wire Model.IpClass Model.SdpStrip Model.SdpStripLines Model.SessDescPeer.
 Import ListNotations.
 Open Scope N_scope.
 
@@ -66,6 +86,110 @@ Definition caps_parse (t : bytes) : option (list (option bytes)) :=
                        | _ => None
                        end) t.
 
+(* ---------------------------------------------------------------- line level *)
+
+Definition msec_parse (t : bytes) : option msec :=
+  let toks := if beq t (bs "-") then [] else split_on COMMA t in
+  let fix go (toks : list bytes) (heads : list N) : option msec :=
+    match toks with
+    | [] => Some (mkMsec (rev heads) [])
+    | (104 :: i) :: r => match dec_parse i with Some n => go r (n :: heads) | None => None end
+    | _ => option_map (mkMsec (rev heads)) (map_opt attr_parse toks)
+    end in
+  go toks [].
+
+(* Some None = U; the flag = pion's re-marshalling of the input is the input *)
+Definition lstruct_parse (t : bytes) : option (option (bool * sdesc)) :=
+  if beq t (bs "U") then Some None
+  else
+    match split_on SEMI t with
+    | e :: sess :: ms =>
+        match bool_parse e, list_parse dec_parse sess, map_opt msec_parse ms with
+        | Some ex, Some sl, Some media => Some (Some (ex, mkSdesc sl media))
+        | _, _, _ => None
+        end
+    | _ => None
+    end.
+
+Definition line_ids_print (l : list line) : bytes := list_print (map (fun x => dec_print (l_id x)) l).
+
+Definition lines_print (s : sent) : bytes :=
+  match s with
+  | Original => bs "unchanged"
+  | Lines l => bs "lines=" ++ line_ids_print l
+  end.
+
+(* what the broker sees: "same" when the bytes are those of the input *)
+Definition sent_print (p : option (bool * sdesc)) (s : sent) : bytes :=
+  match s with
+  | Original => bs "same"
+  | Lines l =>
+      match p with
+      | Some (true, d) => if Nat.eqb (List.length l) (List.length (marshal d)) then bs "same" else bs "lines=" ++ line_ids_print l
+      | _ => bs "lines=" ++ line_ids_print l
+      end
+  end.
+
+Definition osent_print (p : option (bool * sdesc)) (s : option sent) : bytes :=
+  match s with Some s => sent_print p s | None => bs "nochannel" end.
+
+(* ---------------------------------------------------------------- remoteIPFromSDP, fine grain *)
+
+Definition pattr_parse (t : bytes) : option pattr :=
+  match t with
+  | [111] => Some POther
+  | 107 :: r =>
+      match split_on DOT r with
+      | [e; n] => if beq n (bs "nil") then option_map (fun b => PCand (mkUcand None b)) (bool_parse e) else None
+      | [e; ty; ad] =>
+          match bool_parse e, ctype_parse ty, addr_parse ad with
+          | Some b, Some ct, Some a => Some (PCand (mkUcand (Some (ct, a)) b))
+          | _, _, _ => None
+          end
+      | _ => None
+      end
+  | _ => None
+  end.
+
+Definition pmedia_parse (t : bytes) : option pmedia :=
+  if beq t (bs "N") then Some None else option_map Some (list_parse pattr_parse t).
+
+Definition pstruct_parse (t : bytes) : option (option (list pmedia)) :=
+  if beq t (bs "U") then Some None
+  else if beq t (bs "none") then Some (Some [])
+  else option_map Some (map_opt pmedia_parse (split_on SEMI t)).
+
+Definition slice_of (len : nat) (g1 : option bytes) : list (option bytes) :=
+  match len with
+  | O => []
+  | S O => [None]
+  | S (S n) => None :: g1 :: repeat None n
+  end.
+
+Definition submatch_parse (t : bytes) : option submatch :=
+  match t with
+  | [110] => Some SNil
+  | 109 :: r =>
+      match split_on DOT r with
+      | [len; ad] =>
+          match dec_parse_nat len, addr_parse ad with
+          | Some n, Some a => if Nat.leb n 64 then Some (SSlice (slice_of n a)) else None
+          | _, _ => None
+          end
+      | _ => None
+      end
+  | _ => None
+  end.
+
+Definition pres_print (r : pres) : bytes :=
+  match r with
+  | PVal None => bs "nil"
+  | PVal (Some ip) => 120 :: hex_encode ip
+  | PPanic WNilMedia => bs "!panic nil-media"
+  | PPanic WNilCandidate => bs "!panic nil-candidate"
+  | PPanic WIndex => bs "!panic index"
+  end.
+
 Definition run (args : list bytes) : bytes :=
   match args with
   | [op; a] =>
@@ -83,6 +207,11 @@ Definition run (args : list bytes) : bytes :=
         | Some p => result_print (strip_text p)
         | None => ERR_BADCASE
         end
+      else if beq op (bs "lines") then
+        match lstruct_parse a with
+        | Some p => lines_print (strip_lines (option_map snd p))
+        | None => ERR_BADCASE
+        end
       else ERR_BADCASE
   | [op; a; c; _] =>
       if beq op (bs "peer") then
@@ -92,6 +221,24 @@ Definition run (args : list bytes) : bytes :=
                                | None => bs "nil"
                                end
         | _, _ => ERR_BADCASE
+        end
+      else if beq op (bs "peerg") then
+        match pstruct_parse a, list_parse submatch_parse c with
+        | Some p, Some caps => pres_print (remote_ip_code p caps)
+        | _, _ => ERR_BADCASE
+        end
+      else if beq op (bs "psend") then
+        match bool_parse a, lstruct_parse c with
+        | Some keep, Some p => osent_print p (proxy_answer_sent [] true keep (option_map snd p))
+        | _, _ => ERR_BADCASE
+        end
+      else ERR_BADCASE
+  | [op; k; b; c; f; st; _] =>
+      if beq op (bs "csend") || beq op (bs "csendc") then
+        match bool_parse k, payload_parse b, payload_parse c, payload_parse f, lstruct_parse st with
+        | Some keep, Some bu, Some cu, Some fd, Some p =>
+            osent_print p (client_offer_sent (mkCC bu cu fd keep) true (option_map snd p))
+        | _, _, _, _, _ => ERR_BADCASE
         end
       else ERR_BADCASE
   | _ => ERR_BADCASE
